@@ -81,6 +81,12 @@ def gen_url(rng):
 
 
 def judge_path(chosen, prefix, restrict, part, replay, what):
+    if replay.get('prefix_style', 'abs') != 'abs' and os.path.isabs(chosen):
+        # the user gave a relative (or empty) directory prefix: the chosen path must stay relative to the working directory
+        part.violation('absolute-path-for-relative-prefix/{}/{}'.format(replay['prefix_style'], what),
+                       {'chosen': chosen, 'url': replay['url'], 'options': replay['options']}, replay)
+        return False
+    chosen = os.path.abspath(chosen)
     rel = os.path.relpath(chosen, prefix)
     comps = rel.split(os.sep)
     windows = 'windows' in restrict
@@ -128,13 +134,29 @@ def run_case(case, part):
     prefix = os.path.join(sandbox, 'inner', 'download')
     os.makedirs(prefix)
     replay = case
+    style = case.get('prefix_style', 'abs')
+    old_cwd = os.getcwd()
+    prefix_arg = prefix
+    if style == 'empty':
+        os.chdir(prefix)
+        prefix_arg = ''
+    elif style == 'dot':
+        os.chdir(prefix)
+        prefix_arg = '.'
+    elif style == 'rel':
+        os.chdir(os.path.dirname(prefix))
+        prefix_arg = 'download'
+    elif style == 'rel-nested':
+        os.chdir(sandbox)
+        prefix_arg = os.path.join('inner', 'download')
+    part.count('prefix_style_' + style)
     try:
         try:
             info = URLInfo.parse(case['url'])
         except ValueError:
             part.count('url_rejected_by_parser')
             return
-        argv = [case['url']] + case['options'] + ['-P', prefix]
+        argv = [case['url']] + case['options'] + ['-P', prefix_arg]
         args = AppArgumentParser().parse_args(argv)
         builder = Builder(args, unit_test=True)
         session = AppSession(builder.factory, args, io.StringIO())
@@ -198,6 +220,7 @@ def run_case(case, part):
         else:
             part.count('sandbox_walks_clean')
     finally:
+        os.chdir(old_cwd)
         shutil.rmtree(sandbox, ignore_errors=True)
 
 
@@ -215,7 +238,10 @@ def worker(job):
     for n in range(job['n']):
         options, restrict = gen_options(rng)
         url, feature = gen_url(rng)
-        case = {'url': url, 'options': options, 'restrict': restrict, 'disposition': rng.choice(DISPOSITIONS)}
+        # how the user names the download directory: absolute path, or relative to the working directory ('' = the
+        # working directory itself, '.', a relative name)
+        case = {'url': url, 'options': options, 'restrict': restrict, 'disposition': rng.choice(DISPOSITIONS),
+                'prefix_style': rng.choice(['abs', 'abs', 'abs', 'empty', 'dot', 'rel', 'rel-nested'])}
         part.evaluations += 1
         run_case(case, part)
         if feature:
